@@ -47,8 +47,11 @@ func (s *SafeMap[K, V]) Get(key K) (value V) {
 
 // GetOrAdd returns the value of type V for the key of type K.  If the key is not found, the value is added to the map and returned.
 func (s *SafeMap[K, V]) GetOrAdd(key K, val V) (value V) {
-	if s.Has(key) {
-		return s.Get(key)
+	s.mux.RLock()
+	v, ok := s.m[key]
+	s.mux.RUnlock()
+	if ok {
+		return v
 	}
 	s.mux.Lock()
 	defer s.mux.Unlock()
